@@ -283,14 +283,6 @@ func (e *Explorer) Branch(cond *Term) bool {
 		other = cond
 	}
 	e.stats.Assumes["q:branch at "+e.whereFn()]++
-	if strings.Contains(e.whereFn(), "lookup") && len(e.stats.Assumes) < 60 {
-		vs := termVars(cond)
-		names := ""
-		for _, v := range vs {
-			names += v.Name + fmt.Sprintf("(%d,complex=%v) ", v.W, e.complexVars[v])
-		}
-		e.stats.Assumes["DBG "+dbgTerm(cond, 5)+" vars: "+names]++
-	}
 	r, m := e.solver.Check(other)
 	switch r {
 	case Sat:
